@@ -218,6 +218,8 @@ def run(F, R, tier):
         R.soft_broken(str(e))
 
     R.guard(_index_spaces, F, R)
+    R.guard(_selectors, F, R)
+    R.guard(_goal_plumbing, F, R)
 
     # ---- R6 default constants -------------------------------------------------------------------
     R.rule("R6", "the default SM constants of gm2_constants.hpp are read only by constructors / default "
@@ -392,3 +394,125 @@ def _index_spaces(F, R):
         R.check("R7", sp == {need}, "%s indexed by %s (%s index)" % (arr[:40], atxt, "/".join(sorted(sp))), F.loc(f, n),
                 "%s is an array in %s order but is indexed with %s, a position in the %s multiplet"
                 % (arr[:60], need, atxt, "/".join(sorted(sp))), key="R7|%s|%s" % (arr[:40], n.get("l")))
+
+
+PROJ_OK = {"cwiseAbs2", "cwiseAbs", "abs2", "abs", "norm", "squaredNorm", "std::norm", "std::abs"}
+PROJ_BAD = {"real", "imag", "arg", "std::real", "std::imag", "std::arg"}
+VIEW = {"col", "row", "block", "operator()", "operator[]", "transpose", "adjoint", "conjugate", "array", "matrix", "eval",
+        "head", "tail", "segment", "derived"}
+
+
+def _selectors(F, R):
+    """a selected state must not depend on the phase convention of the mixing matrix rows (the Haber-Kane
+    convention turns the row of a negative-mass neutralino purely imaginary)"""
+    R.rule("R8", "state selectors (bino-like neutralino, right-like smuon) read a mixing matrix only through the modulus of "
+                 "its entries (abs / abs2 / norm), and are handed the whole matrix, never a real()/imag() projection", 4)
+    sels = [f for k, f in sorted(F.functions.items())
+            if re.search(r"(^|::)detail::find_\w+$", f["name"]) and f["file"].startswith("src/MSSMNoFV/")]
+    seen = set()
+    for f in sels:
+        if (f["name"], f["line"]) in seen:
+            continue
+        seen.add((f["name"], f["line"]))
+        S = Struct(f)
+        pid = {p["id"] for p in f["params"]}
+        uses = [n for n in walk(f["body"]) if n.get("k") == "DeclRefExpr" and n.get("id") in pid]
+        ok, why = bool(uses), "the matrix parameter is never read"
+        for u in uses:
+            verdict = None
+            for a in S.ancestors(u):
+                k = a.get("k")
+                nm = None
+                if k == "MemberExpr":
+                    nm = a.get("sn")
+                elif is_call(a):
+                    nm = str(a.get("fn") or "").split("(")[0]
+                    nm = nm.split("::")[-1] if not nm.startswith("std::") else nm
+                    if a.get("op"):
+                        nm = "operator" + a["op"]
+                if nm is None:
+                    if k in ("BinaryOperator", "ConditionalOperator", "ReturnStmt", "DeclStmt", "IfStmt"):
+                        verdict = "reaches %s without a modulus" % k
+                        break
+                    continue
+                if nm in PROJ_OK:
+                    verdict = "ok"
+                    break
+                if nm in PROJ_BAD:
+                    verdict = "is projected with %s()" % nm
+                    break
+                if nm in VIEW or nm.startswith("operator"):
+                    continue
+            if verdict != "ok":
+                ok, why = False, "%s: the matrix %s" % (F.loc(f, u), verdict or "is used in an unmodelled way")
+                break
+        R.check("R8", ok, "%s reads |Z_ik| only" % f["name"].split("::")[-1], F.loc(f), why,
+                key="R8|body|" + f["name"].split("::")[-1])
+    # call sites: the argument is a whole mixing matrix
+    n_sites = 0
+    for k, f in sorted(F.functions.items()):
+        if not f["file"].startswith("src/MSSMNoFV/"):
+            continue
+        for n in walk(f["body"]):
+            if is_call(n) and re.search(r"(^|::)detail::find_\w+$", str(n.get("fn") or "").split("<")[0].split("(")[0]):
+                n_sites += 1
+                bad = None
+                for a in call_args(n):
+                    for x in walk(a):
+                        nm = x.get("sn") if x.get("k") == "MemberExpr" else None
+                        if nm in PROJ_BAD or nm in PROJ_OK or nm in ("cast", "cwiseSqrt", "cwiseInverse"):
+                            bad = nm
+                R.check("R8", bad is None, "%s calls %s on a whole mixing matrix" % (f["name"].split("::")[-1],
+                                                                                     str(n.get("fn")).split("<")[0].split("::")[-1]),
+                        F.loc(f, n), "the selector is handed a %s() projection of the mixing matrix" % bad,
+                        key="R8|site|%s|%s" % (f["name"].split("::")[-1], n_sites))
+    if n_sites < 2:
+        R.soft_broken("R8: expected at least two selector call sites, found %d" % n_sites)
+
+
+def _goal_plumbing(F, R):
+    R.rule("R9", "the requested precision and iteration cap reach the fitting routines unchanged: convert_to_onshell and its "
+                 "C entry points pass their own (precision, max_iterations) parameters, in this order, to every routine that "
+                 "takes them", 4)
+    takes = {}
+    for k, f in F.functions.items():
+        ps = [p["name"] for p in f["params"]]
+        if f["name"].startswith("gm2calc::MSSMNoFV_onshell::convert_") and len(ps) == 2 and "precision" in ps[0]:
+            takes[f["name"]] = f
+    if len(takes) < 3:
+        R.soft_broken("R9: fitting routines with (precision, max_iterations) not found")
+        return
+    n = 0
+    for k, f in sorted(F.functions.items()):
+        ps = f["params"]
+        cand = [i for i, p in enumerate(ps) if "precision" in (p["name"] or "")]
+        if not cand or not (f["file"].startswith("src/MSSMNoFV/")):
+            continue
+        ip = cand[0]
+        if ip + 1 >= len(ps):
+            continue
+        want = (ps[ip]["id"], ps[ip + 1]["id"])
+        for c in walk(f["body"]):
+            if is_call(c) and str(c.get("fn") or "") in takes:
+                args = call_args(c)
+                ids = []
+                for a in args[:2]:
+                    a0 = strip_all(a)
+                    ids.append(a0.get("id") if a0 is not None and a0.get("k") == "DeclRefExpr" else None)
+                n += 1
+                R.check("R9", tuple(ids) == want and len(args) == 2,
+                        "%s -> %s(%s, %s)" % (f["name"].split("::")[-1], str(c.get("fn")).split("::")[-1], ps[ip]["name"], ps[ip + 1]["name"]),
+                        F.loc(f, c), "the call does not pass the caller's own (%s, %s): %d explicit argument(s)" % (
+                            ps[ip]["name"], ps[ip + 1]["name"], len([a for a in args if a.get("k") != "CXXDefaultArgExpr"])),
+                        key="R9|%s|%s" % (f["name"].split("::")[-1], str(c.get("fn")).split("::")[-1]))
+    # every function that owns a (precision, max_iterations) pair and converts must forward it at least once
+    for k, f in sorted(F.functions.items()):
+        ps = [p["name"] or "" for p in f["params"]]
+        if any("precision" in x for x in ps) and any("iter" in x for x in ps) and "convert_to_onshell" in f["name"] \
+                and f["file"].startswith("src/MSSMNoFV/"):
+            fwd = [c for c in walk(f["body"]) if is_call(c) and "convert_" in str(c.get("fn") or "")
+                   and len([a for a in call_args(c) if strip_all(a) is not None and strip_all(a).get("k") == "DeclRefExpr"
+                            and strip_all(a).get("id") in {p["id"] for p in f["params"]}]) >= 2]
+            n += 1
+            R.check("R9", bool(fwd), "%s forwards its precision goal" % f["name"].split("::")[-1], F.loc(f),
+                    "no conversion routine receives this function's (precision, max_iterations)", key="R9|fwd|" + f["name"].split("::")[-1])
